@@ -15,6 +15,9 @@
 // passing at every index is THE sorted vector. Nothing of the real construction loops is reused.
 use super::*;
 
+#[path = "@SPEC@/vardct_tables.rs"]
+mod tables;
+
 /// T.81 Figure A.6: zig-zag index -> raster index (8 * row + column)
 const JPEG_ZIGZAG: [u8; 64] = [
     0, 1, 8, 16, 9, 2, 3, 10, 17, 24, 32, 25, 18, 11, 4, 5, 12, 19, 26, 33, 40, 48, 41, 34, 27, 20, 13, 6, 7, 14, 21, 28,
@@ -153,8 +156,10 @@ fn lazy_order_128x64() {
 // ------------------------------------------------------------------------------------------------
 #[kani::proof]
 fn order_fits_varblock() {
-    let v: u8 = kani::any();
-    let Ok(t) = crate::TransformType::try_from(v) else { return };
+    // (not through try_from: dropping its Err drags the recursive drop glue of io::Error into the formula)
+    let v: usize = kani::any();
+    kani::assume(v <= 26);
+    let t = tables::SPEC_VARIANT[v];
     let (w8, h8) = t.dct_select_size();
     let id = t.order_id() as usize;
     assert!(id < 13, "[C01] order_id indexes BLOCK_SIZES / HfPass::permutation (13 entries); natural_order_lazy panics otherwise");
